@@ -429,4 +429,21 @@ def sampleHistG (o : Ops α) (toF : Nat → α) (fix : Bool) (P : Params α) :
     let s := sampleStepG o toF fix P p l acc
     (s.1, s.2.2) :: sampleHistG o toF fix P s.2.1 ls
 
+/-! ### the unseeded sampler (`seed == -1`, the default of `api.DefaultOptions`)
+
+  `NewSampler` leaves `rng` nil for the sentinel seed `-1`; `sample` then takes its number from the
+  process-wide generator (`rand.Float32()`), which the model treats as an arbitrary external
+  stream `rs`: a call that reaches the draw takes the next number. -/
+
+/-- the generator `NewSampler` installs: none for the sentinel `-1` -/
+def newRng (seed : Int) : Option Pcg := if seed = -1 then none else some (pcgOfSeed seed)
+
+/-- a history of calls on an unseeded sampler, given the numbers the process-wide source delivers -/
+def sampleHistU (o : Ops α) (fix : Bool) (P : Params α) : List α → List (List α) → List (Except Err Nat)
+  | _, [] => []
+  | rs, l :: ls =>
+    if consumes o fix P l then
+      Sample o fix P (rs.headD o.zero) l :: sampleHistU o fix P rs.tail ls
+    else Sample o fix P o.zero l :: sampleHistU o fix P rs ls
+
 end OllamaVerif.Sampler
